@@ -138,6 +138,19 @@ func (h *NFSProcedureHandler) handleSetattr(body io.Reader, reply *RPCReply, aut
 		}
 	}
 
+	// SetAttr changes the mode only when it differs from what the handle's node believes it
+	// to be. That belief can be stale (the mode was changed through another handle, e.g. a
+	// symbolic link to this object): refresh it from the backend before a mode change.
+	if sattr.SetMode {
+		if info, statErr := h.server.handler.fs.Stat(node.path); statErr == nil {
+			node.mu.Lock()
+			if node.attrs != nil {
+				node.attrs.Mode = (node.attrs.Mode &^ os.ModePerm) | info.Mode().Perm()
+			}
+			node.mu.Unlock()
+		}
+	}
+
 	node.mu.RLock()
 	if node.attrs == nil {
 		node.mu.RUnlock()
